@@ -241,8 +241,21 @@ def main(run):
     def fit(x):
         return getattr(x, ATTR[0])
 
-    def build(w, rows, sizes, cds=None):
+    int_classes = {}
+
+    def build(w, rows, sizes, cds=None, bigint=False):
+        """bigint: integer weights and integer values shifted by 2**60 (same order, same ties; the weighted values are exact
+        integers that a double cannot tell apart) -- only used where the operator compares fitnesses and does no arithmetic"""
         F = fitcls(w)
+        bigint = bool(bigint and cds is None and all(Fr(x).denominator == 1 for x in w)
+                      and all(Fr(v).denominator == 1 for r in rows for v in r))
+        if bigint:
+            kw_ = tuple(int(x) for x in w)
+            if kw_ not in int_classes:
+                int_classes[kw_] = type("FI%d" % len(int_classes), (base.Fitness,), {"weights": kw_})
+            F = int_classes[kw_]
+            run.extra_cov["populations_with_exact_integer_fitness_beyond_2**53"] = \
+                run.extra_cov.get("populations_with_exact_integer_fitness_beyond_2**53", 0) + 1
         pop = []
         reassign = rng.random() < 0.3
         run.extra_cov["populations_with_reassigned_fitness_objects"] = run.extra_cov.get("populations_with_reassigned_fitness_objects", 0) + reassign
@@ -253,7 +266,7 @@ def main(run):
                 # the fitness object was evaluated before (other values, read once) and is assigned again while still valid
                 fit(x).values = tuple(float(v) + 3.0 * ((i % 3) - 1) + 0.5 for v in vals)
                 _ = fit(x).values, fit(x).wvalues, fit(x).valid
-            fit(x).values = tuple(float(v) for v in vals)
+            fit(x).values = tuple(int(v) + 2 ** 60 for v in vals) if bigint else tuple(float(v) for v in vals)
             if cds is not None:
                 fit(x).crowding_dist = cds[i]
             if ATTR[0] != "fitness":
@@ -390,7 +403,7 @@ def main(run):
     # selBest / selWorst
     # ==========================================================================================
     def do_best(w, rows, sizes, k, worst=False):
-        pop = build(w, rows, sizes)
+        pop = build(w, rows, sizes, bigint=rng.random() < 0.15)
         snap = snapshot(pop)
         fn = tools.selWorst if worst else tools.selBest
         out, log = call(fn, (pop, k))
@@ -416,7 +429,7 @@ def main(run):
     # selTournament
     # ==========================================================================================
     def do_tourn(w, rows, sizes, k, ts, inscope=True, **px):
-        pop = build(w, rows, sizes)
+        pop = build(w, rows, sizes, bigint=rng.random() < 0.15)
         snap = snapshot(pop)
         out, log = call(tools.selTournament, (pop, k, ts), **px)
         case = base_case("selTournament", w, rows, sizes, k=k, tournsize=ts, draws=jlog(log), observed=uids(out, pop))
